@@ -13,7 +13,7 @@ dt     = (at <date> <time> off) | (now off)
 date   = (full y m d) | (md m d) | (dow k) | today | tomorrow | none
 time   = (hms h m us) | noon | midnight | sunrise | sunset | none
 suntab = ((rise|set day t|none) …)      crontab = ((id t 0|1) …)
-cfg    = (stateActive timeActive <specs> holdOff|none saFirst startup)
+cfg    = (stateActive timeActive <specs> holdOff|none saFirst startup [nStateActive nTimeActive])   (counts: legacy only)
 events = ((occ id t wall trigOk env F|Z|T|R ((k F|Z|T|R) …)) | direct | (g task <event>) …)   (task: legacy only)
 ```
 -/
@@ -107,6 +107,12 @@ def cfg? : Sexp → Option Cfg
     pure ⟨← sa.bool?, ← ta.bool?, ← Sexp.listOf? aspec? specs, ← optNat? hold, ← saFirst.bool?, ← startup.int?⟩
   | _ => none
 
+/-- legacy: the configuration may be followed by the numbers of `@state_active` / `@time_active` decorators (default 1 1) -/
+def cfgN? : Sexp → Option (Cfg × Nat × Nat)
+  | .list [sa, ta, specs, hold, saFirst, startup, nSA, nTA] => do
+    pure (← cfg? (.list [sa, ta, specs, hold, saFirst, startup]), ← nSA.nat?, ← nTA.nat?)
+  | x => do pure (← cfg? x, 1, 1)
+
 def showOB : Option Bool → String
   | some true => "T"
   | some false => "F"
@@ -133,10 +139,10 @@ def handle (x : Sexp) : String :=
       | none => "raise"
     | _, _, _, _, _ => "err parse"
   | .list [.atom "legacy", .atom fl, cfg, evs, sunTab, cronTab] =>
-    match cfg? cfg, Sexp.listOf? gev? evs, params? sunTab cronTab with
-    | some c, some es, some P =>
+    match cfgN? cfg, Sexp.listOf? gev? evs, params? sunTab cronTab with
+    | some (c, nSA, nTA), some es, some P =>
       let F := if fl == "rep" then Flags.repaired else if fl == "pre" then Flags.preFix else Flags.current
-      s!"model={showFlags (Legacy.runGroups F P c es (fun _ => GState.init))} spec={showFlags (Spec.runs P c (es.map (·.2)) [])}"
+      s!"model={showFlags (Legacy.runFn F P c nSA nTA es)} spec={showFlags (Spec.runs P c (es.map (·.2)) [])}"
     | _, _, _ => "err parse"
   | .list [.atom "new", .atom fl, cfg, evs, sunTab, cronTab] =>
     match cfg? cfg, Sexp.listOf? ev? evs, params? sunTab cronTab with
